@@ -370,6 +370,35 @@ func runC11(c *Ctx) {
 		mapShared, _ := constantInt(p.extPkg("syscall").Scope().Lookup("MAP_SHARED").(*types.Const).Val())
 		sysMmap, _ := constantInt(p.extPkg("syscall").Scope().Lookup("SYS_MMAP").(*types.Const).Val())
 		all := withClosures(fn)
+		// the mapping routine may also be a named helper a refactoring split off the constructor
+		helperSites := map[*ssa.Function][]*ssa.Call{}
+		for _, g := range withClosures(fn) {
+			for _, hc := range allCalls(g) {
+				if h := hc.Call.StaticCallee(); isHelperOf(fn, h) && !knownOnPinnedTree(h) {
+					if len(helperSites[h]) == 0 {
+						all = append(all, h)
+					}
+					helperSites[h] = append(helperSites[h], hc)
+				}
+			}
+		}
+		// argsFor: the values v stands for in the constructor: v itself, or for a parameter of such a helper the
+		// argument at each of its call sites
+		argsFor := func(g *ssa.Function, v ssa.Value) []ssa.Value {
+			prm, isPrm := stripConv(v).(*ssa.Parameter)
+			if !isPrm || len(helperSites[g]) == 0 {
+				return []ssa.Value{v}
+			}
+			var out []ssa.Value
+			for i, q := range g.Params {
+				if q == prm {
+					for _, hc := range helperSites[g] {
+						out = append(out, hc.Call.Args[i])
+					}
+				}
+			}
+			return out
+		}
 		// size variable: parameter 0 spilled into a cell and updated
 		sizeExprs := func(v ssa.Value) string { return exprString(resolveLoadsOfCell(v), nil, 0) }
 		_ = sizeExprs
@@ -449,11 +478,15 @@ func runC11(c *Ctx) {
 					return
 				}
 				flags, isK := constInt(resolveLoadsOfCell(a[4]))
-				lenOK := false
-				for _, st := range storesTo(fn, size) {
-					if sameCellLoad(st.Val, a[2]) {
-						lenOK = true
+				lenOK := true
+				for _, lv := range argsFor(g, a[2]) {
+					one := false
+					for _, st := range storesTo(fn, size) {
+						if sameCellLoad(st.Val, lv) {
+							one = true
+						}
 					}
+					lenOK = lenOK && one
 				}
 				offOK := isConstInt(a[6], 0)
 				switch {
@@ -487,13 +520,18 @@ func runC11(c *Ctx) {
 						return
 					}
 					mc, ok := resolveCell(strip(call.Call.Value)).(*ssa.MakeClosure)
-					if !ok || mc.Fn != mapper {
+					if (!ok || mc.Fn != mapper) && call.Call.StaticCallee() != mapper {
 						return
 					}
 					eachInstr(fn, func(x ssa.Instruction) {
 						ia, ok := x.(*ssa.IndexAddr)
-						if ok && loadOfField(ia.X, sliceF) && dependsOn(call.Call.Args[0], ia) {
-							mappedIdx[exprString(resolveLoadsOfCell(ia.Index), nil, 0)]++
+						if !ok || !loadOfField(ia.X, sliceF) {
+							return
+						}
+						for _, arg := range call.Call.Args {
+							if dependsOn(arg, ia) {
+								mappedIdx[exprString(resolveLoadsOfCell(ia.Index), nil, 0)]++
+							}
 						}
 					})
 				})
